@@ -241,7 +241,7 @@ def bond_glue(rep):
             rep.ob("O3.3", "R15", fi, None, st, f"order arithmetic not evaluable: {exc}")
         aug = [n for n in walk_local(lp) if isinstance(n, ast.AugAssign) and pmatch("$ha['standard_order']", n.target, {"ha": host_attr}) is not None]
         ok = len(aug) == 1 and isinstance(aug[0].op, ast.Add) and (pmatch("$ra.get('standard_order', $$z)", aug[0].value, {"ra": rc_attr}) is not None) \
-            and guards_of(pm, aug[0], lp) == gs
+            and [(norm(t), s_) for t, s_ in guards_of(pm, aug[0], lp)] == [(norm(t), s_) for t, s_ in gs]
         rep.ob("O3.3", "R15", fi, ok, aug[0] if aug else "standard_order +=", "standard_order accumulates the template's change on the additive path")
     # (3) end points go through the match
     hu_hv = pfind("$hu, $hv = ($m.get($u), $m.get($v))", lp, {"u": u, "v": v})
@@ -319,13 +319,29 @@ def schema(rep):
     # _explicit_h reads hcount at the writer's position on both sides
     eh = rep.f(SR, "SynReactor._explicit_h")
     reads = []
+    ehd = local_defs(eh.node)
+
+    def _is_tgh(e):
+        """is e the whole typesGH pair of some node (directly, or through a local alias)?"""
+        if isinstance(e, ast.Subscript) and is_const(e.slice, "typesGH"):
+            return True
+        if isinstance(e, ast.Name):
+            return any(d_.kind == "assign" and d_.value is not None and _is_tgh(d_.value) for d_ in ehd.get(e.id, []))
+        return False
     for n in walk_local(eh.node):
-        if isinstance(n, ast.Subscript) and isinstance(n.value, ast.Subscript) and isinstance(n.value.value, ast.Subscript) \
-                and is_const(n.value.value.slice, "typesGH"):
-            try:
+        if not (isinstance(n, ast.Subscript) and isinstance(n.ctx, ast.Load)):
+            continue
+        try:
+            # <pair>[side][i]
+            if isinstance(n.value, ast.Subscript) and _is_tgh(n.value.value):
                 reads.append((const(n.value.slice), const(n.slice), n))
-            except ValueError:
-                pass
+            # t_side[i] with  t0, t1 = <pair>
+            elif isinstance(n.value, ast.Name):
+                for d_ in ehd.get(n.value.id, []):
+                    if d_.index is not None and len(d_.index) == 1 and d_.value is not None and _is_tgh(d_.value):
+                        reads.append((d_.index[0], const(n.slice), n))
+        except (ValueError, TypeError):
+            pass
     rep.need("R3a", len(reads), 2, "typesGH[side][i] reads in _explicit_h")
     for side, idx, n in reads:
         rep.ob("O3.5", "R3a", eh, isinstance(idx, int) and idx < len(order) and order[idx] == "hcount", n,
@@ -336,9 +352,16 @@ def schema(rep):
     # the loop that creates explicit hydrogens: `for src, dst in <M>: ... rc.add_node(..., element="H", ...)`
     news = [c for c in walk_local(eh.node) if isinstance(c, ast.Call) and norm(c.func) == f"{eh.params[0]}.add_node"]
     mloop = [l for c in news for l in enclosing_loops(pmh, c, eh.node)[:1]]
-    okn = len(news) == 1 and len(mloop) == 1 and isinstance(mloop[0].iter, ast.Name) and is_const(kwarg(news[0], "element"), "H")
+    def _iterated(it):
+        """the collection a loop runs over: M, enumerate(M, ..), list(M), sorted?? no (order may matter but not the count)"""
+        if isinstance(it, ast.Name):
+            return it.id
+        if isinstance(it, ast.Call) and call_name(it) in ("enumerate", "list", "tuple", "iter") and it.args and isinstance(it.args[0], ast.Name):
+            return it.args[0].id
+        return None
+    okn = len(news) == 1 and len(mloop) == 1 and _iterated(mloop[0].iter) is not None and is_const(kwarg(news[0], "element"), "H")
     rep.ob("O3.2", "R15", eh, okn, news[0] if news else "rc.add_node", "one explicit hydrogen atom is created per recorded migration", node=mloop[0] if mloop else eh.node)
-    M_ = mloop[0].iter.id if okn else "migrations"
+    M_ = _iterated(mloop[0].iter) if okn else "migrations"
     apps = [n for n, b in pfind("$m.append($$x)", eh.node, {"m": M_})]
     rep.need("R15", len(apps), 1, "append to the migration list in _explicit_h")
     for c in apps:
@@ -355,8 +378,17 @@ def schema(rep):
             per_unit = len(decs) == 1 and is_const(decs[0].value, 1)
         rep.ob("O3.2", "R15", eh, per_unit, f"{norm(c)[:40]} inside `{norm(inner)[:50] if inner is not None else '?'}`",
                "each recorded migration accounts for exactly one unit of the donor's hydrogen surplus (hydrogen count is conserved)", node=c)
-        caps = pfind("$r[$i] = ($x, $cap - $$k)", inner if inner is not None else eh.node)
+        scope = inner if inner is not None else eh.node
+        caps = pfind("$r[$i] = ($x, $cap - $$k)", scope)
         okc = (len(caps) == 1 and caps[0][1]["k"] == "1") if caps else None
+        if okc is None:
+            # capacities kept in a table:  cap[recipient] -= 1, the recipient being the second member of the recorded pair
+            rec = c.args[0].elts[1] if c.args and isinstance(c.args[0], ast.Tuple) and len(c.args[0].elts) == 2 else None
+            decs = [n for n in walk_local(scope) if isinstance(n, ast.AugAssign) and isinstance(n.op, ast.Sub) and isinstance(n.target, ast.Subscript)
+                    and rec is not None and norm(n.target.slice) == norm(rec)]
+            if decs:
+                caps = [(decs[0], {})]
+                okc = len(decs) == 1 and is_const(decs[0].value, 1)
         rep.ob("O3.2", "R15", eh, okc, caps[0][0] if caps else "recips[...] = (recv, rcap - 1)", "and exactly one unit of the recipient's deficit", node=c)
     # fresh ids
     okf = None
@@ -368,6 +400,12 @@ def schema(rep):
             init = [n for n, b in pfind("$nid = $$e", eh.node, {"nid": nid}, into_nested=False) if not enclosing_loops(pmh, n, eh.node)]
             inc = [n for n in walk_local(mloop[0]) if isinstance(n, ast.AugAssign) and norm(n.target) == nid and isinstance(n.op, ast.Add) and is_const(n.value, 1)]
             okf = len(init) == 1 and pmatch("max(($n for $n in rc.nodes if isinstance($n, int)), default=-1) + 1", init[0].value) is not None and len(inc) == 1
+        elif mloop:
+            # ids handed out by enumerate(<migrations>, start=<first id>): consecutive, one per migration
+            em = pmatch("enumerate($m, start=$$s)", mloop[0].iter) or pmatch("enumerate($m, $$s)", mloop[0].iter)
+            if em and isinstance(mloop[0].target, ast.Tuple) and norm(mloop[0].target.elts[0]) == h:
+                st_ = mloop[0].iter.keywords[0].value if mloop[0].iter.keywords else mloop[0].iter.args[1]
+                okf = pmatch("max(($n for $n in rc.nodes if isinstance($n, int)), default=-1) + 1", origin(local_defs(eh.node), st_)) is not None
     rep.ob("O3.2", "R15", eh, okf, "next id = max(int node ids) + 1, advanced per hydrogen", "new hydrogen ids start above the largest existing node id and are advanced for every hydrogen")
     # SynRule.__init__: rebuild replaces only the hcount slot, left for member 0, right for member 1
     ri = rep.f(RULE, "SynRule.__init__")
@@ -562,15 +600,26 @@ def strip_h(rep):
         if not licensed:
             # h iterates over a list that was filtered by _fully_removable
             for l in enclosing_loops(pm, c, fi.node):
-                if norm(l.target) == h:
-                    src = origin(defs, l.iter)
-                    if any(isinstance(x, ast.Call) and call_name(x) == "_fully_removable" for x in ast.walk(src)):
+                if h in {x.id for x in ast.walk(l.target) if isinstance(x, ast.Name)}:
+                    # the loop runs over a collection that was filtered by _fully_removable (possibly through enumerate / sorted / list)
+                    srcs = [origin(defs, l.iter)] + [origin(defs, x) for x in ast.walk(l.iter) if isinstance(x, ast.Name)]
+                    if any(isinstance(x, ast.Call) and call_name(x) == "_fully_removable" for s_ in srcs for x in ast.walk(s_)):
                         licensed = True
         sibs = _siblings_of(pm, c)
-        booked = any(isinstance(st, ast.For) and pmatch(f"list($g.neighbors({h}))", st.iter) is not None or
-                     isinstance(st, ast.For) and pmatch(f"$g.neighbors({h})", st.iter) is not None for st in sibs) and \
-            any(pall([f"if $g.nodes[$n].get('element') != 'H':\n    $g.nodes[$n]['hcount'] += 1"], st) is not None
-                or pfind("$g.nodes[$n]['hcount'] += 1", st) for st in sibs if isinstance(st, ast.For))
+        booked = False
+        for st in sibs:
+            if not (isinstance(st, ast.For) and (pmatch(f"list($g.neighbors({h}))", st.iter) is not None or pmatch(f"$g.neighbors({h})", st.iter) is not None)):
+                continue
+            nb = norm(st.target)
+            gname = (pmatch(f"list($g.neighbors({h}))", st.iter) or pmatch(f"$g.neighbors({h})", st.iter))["g"]
+            # node-data aliases of the neighbour:  d = g.nodes[nb]
+            aliases = {f"{gname}.nodes[{nb}]"} | {b_["d"] for _, b_ in pfind(f"$d = {gname}.nodes[{nb}]", st)}
+            for inc in [n_ for n_ in walk_local(st) if isinstance(n_, ast.AugAssign) and isinstance(n_.op, ast.Add) and is_const(n_.value, 1)
+                        and isinstance(n_.target, ast.Subscript) and is_const(n_.target.slice, "hcount") and norm(n_.target.value) in aliases]:
+                # ... for heavy neighbours only
+                heavy = any(s_ and any(pmatch(f"{a_}.get('element') != 'H'", t) is not None or pmatch(f"{a_}['element'] != 'H'", t) is not None for a_ in aliases)
+                            for t, s_ in guards_of(pm, inc, st))
+                booked = booked or heavy
         rep.ob("O3.7", "R15", fi, licensed and booked, c, "a hydrogen node is removed only when licensed by _fully_removable and after it was booked into its heavy neighbours' hcount",
                {"licensed": licensed, "booked": bool(booked)}, node=c)
 
